@@ -12,11 +12,6 @@ PID = 'C12'
 SHORT = 'writer'
 
 ENV = '''
-#[derive(Debug, Clone, Copy, PartialEq, Eq, Structural)]
-pub struct StatusCode { pub bits: u32 }
-impl StatusCode {
-    pub const BadCommunicationError: StatusCode = StatusCode { bits: 0x8005_0000 };
-}
 pub struct SupportedMessage { pub x: u64 }
 pub struct MessageChunk { pub data: Vec<u8> }
 pub uninterp spec fn c_seq(c: MessageChunk) -> u32;
@@ -108,6 +103,7 @@ def build(manifest):
     types = types.replace('Cursor<Vec<u8>>', 'Cursor')
     a = Asm()
     a.add('use vstd::prelude::*;\nverus! {\nglobal size_of usize == 8;\n', 'prelude', 'env')
+    a.add(status_code_struct(manifest), 'status codes', 'env')      # every status code of the real file (D14)
     a.add(ENV, 'env', 'env')
     a.add(norm_vis(types), 'types', 'env')
     a.add('impl MessageWriter {')
